@@ -436,6 +436,20 @@ func (e Expect) agrees(ob Observed) (bool, string) {
 
 // classify names the cause of a failure (the key known_findings.json is matched against).
 func (c *specCl) classify(rq Req, exp Expect, ob Observed) string {
+	if exp.Kind == "servers" && ob.Verdict == "backend" {
+		want := map[string]bool{}
+		for _, t := range exp.Servers {
+			want[t] = true
+		}
+		for _, t := range ob.Servers {
+			if !strings.HasSuffix(t, ":w0") && !want[t] && want[t+":w0"] {
+				return "not-ready-or-terminating-endpoint-not-drained"
+			}
+			if strings.HasSuffix(t, ":w0") && !c.drain {
+				return "draining-server-without-drain-support"
+			}
+		}
+	}
 	if ob.Verdict == "redirect" && exp.Kind == "servers" && exp.Via == "default backend" {
 		return "default-backend-ssl-redirect"
 	}
